@@ -34,11 +34,12 @@ MIN_OUTCOMES = 4
 DEPTH = {'quick': 3, 'thorough': 5}
 
 # ------------------------------------------------------------------ initial states
-TAB1 = {'name': 'TAB1', 'cols': [['i', 'int'], ['x', 'double'], ['s', 'char[8]']]}
+TAB1 = {'name': 'TAB1', 'cols': [['i', 'int'], ['x', 'double'], ['s', 'char[8]'], ['u', 'char[]']]}
 TAB2 = {'name': 'tab2', 'cols': [['name', 'char[8]'], ['arr', 'int[2]'], ['tags', 'char[2][4]']]}
 ROWMENU = {
-    'TAB1': [[1, 0.5, 'a'], [-2147483648, 0.1, 'a b'], [7, 1.0 / 3.0, ''], [0, -0.0, '#'], [2147483647, 1e300, 'a#b'],
-             [5, 2.5, "it's"], [6, -1.5, 'a;b'], [8, 4.0, 'x\\y']],
+    'TAB1': [[1, 0.5, 'a', 'u'], [-2147483648, 0.1, 'a b', 'uu'], [7, 1.0 / 3.0, '', 'u u u'], [0, -0.0, '#', 'uuuuuu'],
+             [2147483647, 1e300, 'a#b', 'u#uuuuu'], [5, 2.5, "it's", 'uuuuuuuuu'], [6, -1.5, 'a;b', ''],
+             [8, 4.0, 'x\\y', 'uuuuuuuuuuu']],
     'TAB2': [['n0', [1, 2], ['ab', 'cd']], ['a b', [-1, 0], ['', 'x y']], ['', [2147483647, -2147483648], ['a#b', 'q']],
              ['#', [3, 4], ['e', '']], ['trail ', [5, 6], ['it', 'is']], [' lead', [7, 8], ['a;b', 'zz']],
              ['z', [9, 10], ['u', 'v']], ['y', [11, 12], ['w', 'x']]],
@@ -168,7 +169,7 @@ class World:
                 for cn, ct in s['cols']:
                     base = {'int': 'i4', 'double': 'f8', 'char': 'S8'}[ct.split('[')[0]]
                     if ct.startswith('char'):
-                        base = 'S' + ct[ct.rfind('[') + 1:ct.rfind(']')]
+                        base = 'S' + (ct[ct.rfind('[') + 1:ct.rfind(']')] or '16')
                         dt.append((cn, base, (2,)) if ct.count('[') == 2 else (cn, base))
                     else:
                         dt.append((cn, base, (2,)) if '[' in ct else (cn, base))
